@@ -11,7 +11,8 @@ MANIFEST = dict(
     note='Trusted: TLC, CommunityModules Json, the source renderer and the ~200-line layout readers in checks/binlayout.py (field positions only). Not decided: references to missing names that the written MSG table does not need (unused default, keys beyond table_len); duplicate meta keys inside one object; images.',
 )
 
-# bounds per tier: family -> (MAXN, MAXE, NAMES, NUMS)
+# bounds per tier: family -> (MAXN, MAXE, NAMES, NUMS); MAXE_SMALL = entries for layouts of <= 2 sprites/scripts
+MAXE_SMALL = {"quick": 4, "thorough": 5}
 BOUNDS = {
     "quick": {
         "anm_sprites": (3, 2, "canon", 2), "anm_scripts": (3, 2, "canon", 3), "msg": (3, 1, "canon", 1),
@@ -474,7 +475,7 @@ def generate(chk, families, tier, wd):
     def one(fam):
         maxn, maxe, names, nums = BOUNDS[tier][fam]
         out = os.path.join(wd, "cases_%s.ndjson" % fam)
-        r = lib.tlc("Gen_Numbering", env={"OUT": out, "FAMILY": fam, "MAXN": str(maxn), "MAXE": str(maxe), "NAMES": names,
+        r = lib.tlc("Gen_Numbering", env={"OUT": out, "FAMILY": fam, "MAXN": str(maxn), "MAXE": str(maxe), "MAXE_SMALL": str(max(maxe, MAXE_SMALL[tier]) if fam.startswith("anm_") else maxe), "NAMES": names,
                                           "NUMS": str(nums)}, workers=2, timeout=1500, name="Gen_Numbering_" + fam)
         return fam, out, r
     cases = {}
